@@ -1,6 +1,7 @@
 package files
 
-// C20 (segment matcher): pathMatches equals "`*` stands for any run of characters".
+// C20: reference definition of a pattern segment ("`*` stands for any run of characters") and the
+// black-box segment check through ParsePath / GetFileList.
 
 func refGlob(p string, t string) bool {
 	if len(p) == 0 {
@@ -30,26 +31,29 @@ func c20Str(label string, n int) string {
 	return string(b)
 }
 
-func VerifC20Seg(plen int, tlen int, twin int) {
+// VerifC20SegFS: the same comparison through the exported entry points only: a directory holding one file
+// whose name is symbolic; the file is listed exactly when its name matches the (symbolic) pattern.
+func VerifC20SegFS(plen int, tlen int) {
 	pattern := c20Str("pattern", plen)
 	target := c20Str("name", tlen)
-	vNote("source", "pattern length "+string(rune('0'+plen))+", name length "+string(rune('0'+tlen)))
+	vNote("source", "one file with a symbolic name, pattern length "+string(rune('0'+plen))+", name length "+string(rune('0'+tlen)))
 	vNote("pattern", pattern)
 	vNote("name", target)
-	// the target itself contains no star (file names with a literal '*' are outside the small alphabet)
 	for i := 0; i < len(target); i++ {
 		vAssume(target[i] != '*')
 	}
+	vAssume(target != "." && target != "..")
+	vfsInit()
+	defer vfsDone()
+	vfsWrite(target, "x")
 	want := refGlob(pattern, target)
-	got := pathMatches(target, pattern)
+	got := ParsePath(pattern).GetFileList(".")
 	vReach("compared")
-	if twin != 0 {
-		vFail("TWIN reached the comparison")
-	}
-	if got != want {
-		if want {
+	if want {
+		if len(got) != 1 || got[0] != "./"+target {
 			vFail("a file name that matches the pattern is not selected")
 		}
+	} else if len(got) != 0 {
 		vFail("a file name that does not match the pattern is selected")
 	}
 }
